@@ -584,6 +584,59 @@ func runC10(c *core.Ctx) *core.Outcome {
 		}
 		o.States = append(o.States, h64(trace[len(trace)-1]))
 	}
+	// one run in 400: a listing of several thousand keys (a session's user data can be that large) yields every one of them
+	if t.Chance(1, 400) {
+		n := t.Range(4090, 4300)
+		for _, m := range meds {
+			if m.kind != world.BackFs && m.kind != world.BackFsBin {
+				continue
+			}
+			h, err := m.open()
+			if err != nil {
+				panic("cannot open backend " + m.name + ": " + err.Error())
+			}
+			h.SetPrefix(tUser)
+			h.SetSession("mass")
+			for k := 0; k < n; k++ {
+				if err := h.Put(context.Background(), []byte(fmt.Sprintf("m%05d", k)), []byte(fmt.Sprintf("mv%d", k))); err != nil {
+					panic("C10 harness: mass write failed on " + m.name + ": " + err.Error())
+				}
+			}
+			seen := map[string]bool{}
+			dup := ""
+			pm, pat := world.Guard(func() {
+				d, err := h.Dump(context.Background(), []byte("m"))
+				if err != nil {
+					return
+				}
+				for k := 0; k < 3*n; k++ {
+					kk, vv := d.Next(context.Background())
+					if kk == nil {
+						break
+					}
+					if seen[string(kk)] {
+						dup = string(kk)
+					}
+					seen[string(kk)] = true
+					if want := "mv" + strings.TrimLeft(strings.TrimPrefix(string(kk), "m"), "0"); string(vv) != want && !(string(kk) == "m00000" && string(vv) == "mv0") {
+						dup = string(kk) + " (wrong value " + string(vv) + ")"
+					}
+				}
+				d.Close()
+			})
+			trace = append(trace, fmt.Sprintf("mass listing of %d keys on %s", n, m.name))
+			if pm != "" {
+				return fail("panic:"+pat, nops, "%s panicked: %s", trace[len(trace)-1], pm)
+			}
+			if dup != "" {
+				return fail("dump-duplicate", nops, "%s listed key %s twice or wrongly", trace[len(trace)-1], dup)
+			}
+			if len(seen) != n {
+				return fail("dump-missing", nops, "%s yielded %d keys", trace[len(trace)-1], len(seen))
+			}
+			o.Probes["mass_listing_compared"]++
+		}
+	}
 	o.Counts["operations"] = len(trace)
 	o.Counts["sim_ticks"] = len(trace)
 	o.Probes["locked_write_refused"] += lockedRefused
